@@ -193,6 +193,15 @@ func CreatePath(path string) {
 
 func PathExists(path string) bool { _, ok := registry[path]; return ok }
 
+// RemovePath models os.Remove of a database file.
+func RemovePath(path string) bool {
+	if _, ok := registry[path]; !ok {
+		return false
+	}
+	delete(registry, path)
+	return true
+}
+
 func (db *DB) Path() string     { return db.path }
 func (db *DB) Close() error     { db.closed = true; return nil }
 func (db *DB) Stats() Stats     { return Stats{} }
